@@ -489,3 +489,33 @@ Proof.
 Qed.
 
 End QFP.
+
+(* ---------- histories of one generator ---------- *)
+(* The model's generator state is just its identifier chain: AddConstant puts a constant on top of g.identifier
+   (g.identifier = g.identifier.AddConst(n, c)); GenerateWithMap(exp, m) reads the CURRENT chain.  A history is a
+   list of such operations. *)
+Inductive hop :=
+| HAddConst (n v : str)            (* AddConstant(n, v) *)
+| HGenerate (m : str) (exp : ft).  (* GenerateWithMap(exp, m) *)
+
+(* every GenerateWithMap of the history, started in state B, agrees with Generate of the program qualified relative
+   to exactly the constants registered before it *)
+Fixpoint hist_ok (cfg : pcfg) (B : idents) (h : list hop) : Prop :=
+  match h with
+  | [] => True
+  | HAddConst n v :: r => hist_ok cfg (id_constant n v :: B) r
+  | HGenerate m exp :: r =>
+      (m <> [] -> forall e u, fresh m exp = true -> fwf cfg exp = true ->
+         ferase cfg (wm_chain m B []) exp = Some (e, u) ->
+         parse cfg (wm_chain m B []) (fflatten cfg exp) = POk e /\
+         parse cfg (pl_chain m B []) (fflatten cfg (fqualify m B [] exp)) = POk e) /\
+      hist_ok cfg B r
+  end.
+
+(* a corollary of withmap_is_qualify_full, which holds for EVERY chain B: the state of the generator enters only as B *)
+Theorem withmap_history : forall cfg, table_ok cfg = true -> forall h B, hist_ok cfg B h.
+Proof.
+  intros cfg Ht. induction h as [|[n v|m exp] h IH]; intros B; cbn [hist_ok]; auto.
+  split; [|apply IH]. intros Hm e u F W E.
+  exact (withmap_is_qualify_full cfg m B Hm Ht [] exp e u eq_refl eq_refl F W E).
+Qed.
